@@ -567,4 +567,14 @@ theorem packReq_map_sent (spare : Nat) (tcp : Bool) (buf packed : Bytes) :
       apply Classical.byContradiction; intro hc; rw [decide_eq_false hc] at hs; cases hs
     rw [if_pos this, Option.map_some, packReq_sent spare tcp buf packed r h]
 
+/-! ### Round 4: control buffer, chain -/
+
+theorem runOOB_length (oob : Bytes) (hist : List Bytes) : (runOOB oob hist).length = oob.length := by
+  induction hist generalizing oob with
+  | nil => rfl
+  | cons c rest ih => simp only [runOOB, recvOOB]; rw [ih, length_overwrite]
+
+theorem upsPath_ne_tcp (tcp : Bool) : upsPath tcp ≠ Path.tcp := by
+  cases tcp <;> simp [upsPath]
+
 end Agd.Buffers
